@@ -53,7 +53,7 @@ def gen(rng: random.Random, tier: str, idx: int) -> dict:
                 # is registered, then the transaction stays open for g
                 part = rng.random() < 0.5      # partitioned layout: every writer's file has the same basename
                 ops.append({"kind": "files_append", "tag": f"w{i}.{j}", "n": 1, "age": rng.choice([0.0, 7200.0, 7200.0]),
-                            **({"dir": f"p={i + 1}", "name": "pre_part0"} if part else {}),
+                            **({"dir": f"p={i + 1}{'abc'[j]}", "name": "pre_part0"} if part else {}),   # one directory per file: a path is never re-used
                             "gap": g, "rollback": rng.random() < 0.1})
             elif r < 0.7:
                 ops.append({"kind": "long_append", "tag": f"w{i}.{j}", "n": 1, "gap": g, "rollback": rng.random() < 0.15})
